@@ -175,3 +175,77 @@ pub mod alloc {
 pub mod side_metadata {
     pub use crate::util::metadata::side_metadata::verif_hooks::*;
 }
+
+/// Native mark-sweep size classes.
+pub mod marksweep {
+    use crate::policy::marksweepspace::native_ms as ms;
+    use crate::vm::VMBinding;
+
+    pub const MAX_BIN: usize = ms::MAX_BIN;
+    pub const MAX_BIN_SIZE: usize = ms::MAX_BIN_SIZE;
+    pub const BLOCK_BYTES: usize = <ms::Block as crate::util::linear_scan::Region>::BYTES;
+
+    /// The size class selected for a request.
+    pub fn mi_bin<VM: VMBinding>(size: usize, align: usize) -> usize {
+        ms::mi_bin::<VM>(size, align)
+    }
+
+    /// Cell size of every size class (index = bin).
+    pub fn bin_sizes() -> Vec<usize> {
+        ms::new_empty_block_lists().iter().map(|l| l.size).collect()
+    }
+}
+
+pub use crate::util::heap::gc_trigger::MemBalancerTrigger;
+pub use crate::util::heap::space_descriptor::SpaceDescriptor;
+
+/// Compressor forwarding metadata driven directly (no CompressorSpace).
+pub mod compressor {
+    use crate::policy::compressor::forwarding::{CompressorRegion, ForwardingMetadata};
+    use crate::util::linear_scan::Region;
+    use crate::util::metadata::side_metadata::SideMetadataSpec;
+    use crate::util::{Address, ObjectReference};
+    use crate::vm::VMBinding;
+
+    pub const REGION_BYTES: usize = CompressorRegion::BYTES;
+
+    /// The mark bitmap and the offset vector specs.
+    pub fn specs() -> [SideMetadataSpec; 2] {
+        [
+            crate::policy::compressor::forwarding::MARK_SPEC,
+            crate::policy::compressor::forwarding::OFFSET_VECTOR_SPEC,
+        ]
+    }
+
+    pub struct Forwarding<VM: VMBinding>(ForwardingMetadata<VM>);
+
+    impl<VM: VMBinding> Forwarding<VM> {
+        pub fn new() -> Self {
+            Forwarding(ForwardingMetadata::new())
+        }
+        /// Mark an object exactly as `CompressorSpace::trace_mark_object` does.
+        pub fn mark(&self, object: ObjectReference) -> bool {
+            if crate::policy::compressor::CompressorSpace::<VM>::test_and_mark(object) {
+                self.0.mark_last_word_of_object(object);
+                true
+            } else {
+                false
+            }
+        }
+        pub fn calculate_offset_vector(&self, region_start: Address, cursor: Address) {
+            self.0
+                .calculate_offset_vector(CompressorRegion::from_aligned_address(region_start), cursor)
+        }
+        pub fn forward(&self, address: Address) -> Address {
+            self.0.forward(address)
+        }
+        pub fn marked_objects(&self, start: Address, end: Address) -> Vec<ObjectReference> {
+            let mut v = vec![];
+            self.0.scan_marked_objects(start, end, &mut |o| v.push(o));
+            v
+        }
+        pub fn release(&self) {
+            self.0.release()
+        }
+    }
+}
